@@ -103,7 +103,7 @@ class Ref:
             elif isinstance(self.sens, np.ndarray):
                 new = self.sens + ds
                 assert new.shape == self.sens.shape
-                self.sens = new.astype(self.sens.dtype)
+                self.sens = np.asarray(new).astype(self.sens.dtype)
             else:
                 self.sens = self.sens + ds
             return
